@@ -42,5 +42,9 @@ PureOK == (Rec.op = "pure" /\ Done) =>
 \* histories in which receiver and argument of an earlier call are changed afterwards, each through its own public
 \* in-place methods: the other party stays as it was (no structure shared beyond the call)
 AfterOK == (Rec.op = "after" /\ Done) => Rec.a1 = Rec.a0 /\ Rec.o1 = Rec.o0
+\* module-level constructors (pauli, paulis, identity_map, clifford_rotation_map, the named states and gates, C(k),
+\* clifford_rotation_gate, identity_circuit ...) are functions of their arguments: called again after the caller changed
+\* in place the object it got the first time, they return the same value as the first time (no shared or memoised parts)
+FactoryOK == (Rec.op = "factory" /\ Done) => Rec.again = Rec.first
 NoCrash17 == ~Has("exc")
 =============================================================================
